@@ -29,11 +29,18 @@ Definition shape := list sym.
 Definition fam := list (list shape).
 
 Definition sym_bytes_of (y : sym) : list N := match y with SyB b => [b] | SyS s => s end.
-Definition sym_sub (a b : sym) : bool := forallb (sym_inb b) (sym_bytes_of a).
+Definition sym_eqb (a b : sym) : bool :=
+  match a, b with
+  | SyB x, SyB y => x =? y
+  | SyS x, SyS y => list_eqb x y
+  | _, _ => false
+  end.
+(* (if-then-else, not &&/||: vm_compute evaluates both arguments of a boolean function) *)
+Definition sym_sub (a b : sym) : bool := if sym_eqb a b then true else forallb (sym_inb b) (sym_bytes_of a).
 Fixpoint shape_sub (a b : shape) : bool :=
   match a, b with
   | [], [] => true
-  | x :: a', y :: b' => sym_sub x y && shape_sub a' b'
+  | x :: a', y :: b' => if sym_sub x y then shape_sub a' b' else false
   | _, _ => false
   end.
 
@@ -53,8 +60,13 @@ Definition la_has (la : look) (n : onext) : bool :=
   | LSet F, Some b => existsb (N.eqb b) F
   | _, _ => false
   end.
+Definition add_next (x : onext) (acc : list onext) : list onext :=
+  if existsb (onext_eqb x) acc then acc else x :: acc.
 Definition nexts_step (fj : list shape) (nx : list onext) : list onext :=
-  dedupe_next (flat_map (fun st => match st with [] => nx | y :: _ => map Some (sym_bytes_of y) end) fj).
+  fold_right (fun st acc => match st with
+                            | [] => fold_right add_next acc nx
+                            | y :: _ => fold_right (fun b a => add_next (Some b) a) acc (sym_bytes_of y)
+                            end) [] fj.
 (* rf = admissible first bytes of the rest of the slice, re = the slice may end there *)
 Definition nexts_end (rf : list N) (re : bool) : list onext := map Some rf ++ (if re then [None] else []).
 Fixpoint nexts (fs : fam) (rf : list N) (re : bool) : list onext :=
@@ -63,14 +75,26 @@ Fixpoint nexts (fs : fam) (rf : list N) (re : bool) : list onext :=
   | fj :: more => nexts_step fj (nexts more rf re)
   end.
 
+Definition closed_for (sg : seg) (n : onext) (st : shape) : bool :=
+  existsb (fun a => if la_has (a_la a) n then shape_sub st (a_shape a) else false) sg.
+Definition la_any (la : look) : bool := match la with LAny => true | _ => false end.
+(* an alternative without lookahead condition settles every next byte at once *)
 Definition shape_closed (sg : seg) (nx : list onext) (st : shape) : bool :=
-  forallb (fun n => existsb (fun a => shape_sub st (a_shape a) && la_has (a_la a) n) sg) nx.
-Fixpoint family_ok (p : plan) (fs : fam) (rf : list N) (re : bool) : bool :=
+  if existsb (fun a => if la_any (a_la a) then shape_sub st (a_shape a) else false) sg then true
+  else forallb (fun n => closed_for sg n st) nx.
+(* bottom-up: the possible next bytes of the items checked so far, or None when a shape is not closed *)
+Fixpoint family_nexts (p : plan) (fs : fam) (rf : list N) (re : bool) : option (list onext) :=
   match p, fs with
-  | [], [] => true
-  | sg :: p', fj :: fs' => forallb (shape_closed sg (nexts fs' rf re)) fj && family_ok p' fs' rf re
-  | _, _ => false
+  | [], [] => Some (nexts_end rf re)
+  | sg :: p', fj :: fs' =>
+      match family_nexts p' fs' rf re with
+      | Some nx => if forallb (shape_closed sg nx) fj then Some (nexts_step fj nx) else None
+      | None => None
+      end
+  | _, _ => None
   end.
+Definition family_ok (p : plan) (fs : fam) (rf : list N) (re : bool) : bool :=
+  match family_nexts p fs rf re with Some _ => true | None => false end.
 
 Definition in_fam (fj : list shape) (t : bytes) : bool := existsb (fun st => in_shape st t) fj.
 Fixpoint in_family (fs : fam) (texts : list bytes) : bool :=
@@ -83,25 +107,19 @@ Definition rest_ok (rf : list N) (re : bool) (rest : bytes) : bool :=
   match rest with [] => re | b :: _ => existsb (N.eqb b) rf end.
 
 (* generation, right to left *)
-Definition sym_eqb (a b : sym) : bool :=
-  match a, b with
-  | SyB x, SyB y => x =? y
-  | SyS x, SyS y => list_eqb x y
-  | _, _ => false
-  end.
 Fixpoint shape_eqb (a b : shape) : bool :=
   match a, b with
   | [], [] => true
-  | x :: a', y :: b' => sym_eqb x y && shape_eqb a' b'
+  | x :: a', y :: b' => if sym_eqb x y then shape_eqb a' b' else false
   | _, _ => false
   end.
+(* the alternatives of one shape are adjacent in a generated plan: dropping adjacent repeats is enough
+   (a repeated candidate would be harmless) *)
 Fixpoint dedupe_shapes (l : list shape) : list shape :=
   match l with
-  | [] => []
-  | x :: r => if existsb (shape_eqb x) r then dedupe_shapes r else x :: dedupe_shapes r
+  | x :: ((y :: _) as r) => if shape_eqb x y then dedupe_shapes r else x :: dedupe_shapes r
+  | _ => l
   end.
-Definition closed_for (sg : seg) (n : onext) (st : shape) : bool :=
-  existsb (fun a => shape_sub st (a_shape a) && la_has (a_la a) n) sg.
 Definition first_bad (bad : list onext) (st : shape) : bool :=
   match st with
   | [] => false
@@ -110,30 +128,55 @@ Definition first_bad (bad : list onext) (st : shape) : bool :=
 (* one item, given the family of the items after it.  When no shape of the item survives every possible
    next byte, the next item loses the shapes that begin with a byte NO shape of this item tolerates
    (e.g. blanks followed by a space-padded day: the space-padded forms go, the blanks stay) *)
-Definition fam_step (sg : seg) (fs : fam) (rf : list N) (re : bool) : fam :=
-  let cands := dedupe_shapes (map a_shape sg) in
-  let nx := nexts fs rf re in
-  match filter (shape_closed sg nx) cands with
-  | (_ :: _) as fj => fj :: fs
-  | [] =>
-      match fs with
-      | fnext :: more =>
-          let bad := filter (fun n => forallb (fun st => negb (closed_for sg n st)) cands) nx in
-          let fnext' := filter (fun st => negb (first_bad bad st)) fnext in
-          let nx' := nexts (fnext' :: more) rf re in
-          filter (shape_closed sg nx') cands :: fnext' :: more
-      | [] => [] :: fs
-      end
-  end.
-Fixpoint gen_fam (p : plan) (rf : list N) (re : bool) : fam :=
-  match p with
+(* remove the shapes that begin with a bad byte from the next item and, through items that may render
+   the empty text, from the items after it *)
+Fixpoint prune_bad (bad : list onext) (fs : fam) : fam :=
+  match fs with
   | [] => []
-  | sg :: p' => fam_step sg (gen_fam p' rf re) rf re
+  | f :: more =>
+      let f' := filter (fun st => negb (first_bad bad st)) f in
+      if existsb (fun st => match st with [] => true | _ => false end) f' then f' :: prune_bad bad more
+      else f' :: more
   end.
+Definition fam_step (sg : seg) (st0 : fam * list onext) (rf : list N) (re : bool) : fam * list onext :=
+  let '(fs, nx) := st0 in
+  let cands := dedupe_shapes (map a_shape sg) in
+  match filter (shape_closed sg nx) cands with
+  | (_ :: _) as fj => (fj :: fs, nexts_step fj nx)
+  | [] =>
+      let bad := filter (fun n => forallb (fun st => negb (closed_for sg n st)) cands) nx in
+      let fs' := prune_bad bad fs in
+      let nx' := nexts fs' rf re in
+      let fj := filter (shape_closed sg nx') cands in
+      (fj :: fs', nexts_step fj nx')
+  end.
+Fixpoint gen_fam_nx (p : plan) (rf : list N) (re : bool) : fam * list onext :=
+  match p with
+  | [] => ([], nexts_end rf re)
+  | sg :: p' => fam_step sg (gen_fam_nx p' rf re) rf re
+  end.
+Definition gen_fam (p : plan) (rf : list N) (re : bool) : fam := fst (gen_fam_nx p rf re).
 
-(* what may follow the last item: any ASCII byte that is not a letter or a digit, or the end *)
-Definition RF_SAFE : list N := set_of (fun c => negb (in_posix P_alnum c)).
-Definition row_fam (row : rx_row) : fam := gen_fam (row_plan row) RF_SAFE true.
+(* what may follow the last item: the first of these classes for which no item loses all its shapes:
+   any byte; any ASCII byte but blank and tab (rows ending in `[[:blank:]]*`); any byte but a digit; any byte but an ASCII letter or digit; the same without blank and tab
+   (rows ending in `[[:blank:]]*`); only a newline.  The slice may also end there. *)
+Definition ALL_BYTES : list N := map N.of_nat (seq 0 256).
+Definition RF_ALL : list N := ALL_BYTES.
+Definition RF_NB : list N := set_of (fun c => negb (in_posix P_blank c)).
+Definition RF_NODIGIT : list N := filter (fun c => negb (in_posix P_digit c)) ALL_BYTES.
+Definition RF_SAFE : list N := filter (fun c => negb (in_posix P_alnum c)) ALL_BYTES.
+Definition RF_NOBLANK : list N := filter (fun c => negb (in_posix P_alnum c) && negb (in_posix P_blank c)) ALL_BYTES.
+Definition fam_full (fs : fam) : bool := forallb (fun fj => match fj with [] => false | _ => true end) fs.
+Definition rf_of (p : plan) : list N :=
+  if fam_full (gen_fam p RF_ALL true) then RF_ALL
+  else if fam_full (gen_fam p RF_NB true) then RF_NB
+  else if fam_full (gen_fam p RF_NODIGIT true) then RF_NODIGIT
+  else if fam_full (gen_fam p RF_SAFE true) then RF_SAFE
+  else if fam_full (gen_fam p RF_NOBLANK true) then RF_NOBLANK
+  else [10].
+Definition row_rf (row : rx_row) : list N := rf_of (row_plan row).
+Definition fam_of (p : plan) : fam := gen_fam p (rf_of p) true.
+Definition row_fam (row : rx_row) : fam := fam_of (row_plan row).
 
 (* ------------------------------------------------------------------ 2. standard renderings *)
 Definition rangeN (lo : N) (n : nat) : list N := map (fun k => lo + N.of_nat k) (seq 0 n).
@@ -275,9 +318,100 @@ Definition fread_valid (r : fread) (yo : option Z) : bool :=
      end.
 
 (* ---- the decidable predicate on a row: covered, non-epoch, family closed and non-empty *)
-Definition row_numeric (row : rx_row) (d : dtfs) : bool :=
-  let p := row_plan row in
-  let fs := row_fam row in
-  plan_covers row p && family_ok p fs RF_SAFE true
-  && forallb (fun fj => match fj with [] => false | _ => true end) fs
+Definition plan_numeric (o : org) (row : rx_row) (p : plan) (d : dtfs) : bool :=
+  let rf := rf_of p in
+  let fs := gen_fam p rf true in          (* = fam_of p *)
+  plan_covers_at o row p && family_ok p fs rf true
+  && fam_full fs
   && match f_epoch d with E_none => true | E_s => false end.
+Definition row_numeric (row : rx_row) (d : dtfs) : bool := plan_numeric OAbs row (row_plan row) d.
+(* the same for a match attempt after a non-empty prefix (unanchored rows) *)
+Definition row_numeric_nz (row : rx_row) (d : dtfs) : bool := plan_numeric ONz row (row_plan_nz row) d.
+(* ---- which VALUES have an admitted standard rendering in a row (field ids of the gaps; [] = none):
+   years 1970..2099 (four digits) / 1970..2069 (two digits), months, days, hours 0..23, minutes, seconds,
+   at least one fraction length, numeric offsets with an ASCII sign in all hours 00..23 and minutes 00..59,
+   at least 192 of the 392 zone-name spellings of the frozen reference *)
+Definition has_val (tab : list (bytes * Z)) (v : N) : bool := existsb (fun tv => (snd tv =? Z.of_N v)%Z) tab.
+Definition value_gaps (row : rx_row) (d : dtfs) : list N :=
+  let p := row_plan row in
+  let fs := gen_fam p (rf_of p) true in
+  let at_ f := fam_at fs (field_item row p f) in
+  (if match f_year d with
+      | Y_Y => forallb (has_val (adm_tab (at_ 0) (read_year d) std_year)) (rangeN 1970 130)
+      | Y_y => forallb (has_val (adm_tab (at_ 0) (read_year d) std_year)) (rangeN 1970 100)
+      | _ => true end then [] else [0])
+  ++ (if forallb (has_val (adm_tab (at_ 1) (read_month d) std_month)) (rangeN 1 12) then [] else [1])
+  ++ (if forallb (has_val (adm_tab (at_ 2) (read_day d) std_day)) (rangeN 1 31) then [] else [2])
+  ++ (if forallb (has_val (adm_tab (at_ 3) (read_hour d) std_hour)) (rangeN 0 24) then [] else [3])
+  ++ (if forallb (has_val (adm_tab (at_ 4) (read_minute d) std_minute)) (rangeN 0 60) then [] else [4])
+  ++ (if match f_second d with
+         | S_S => forallb (has_val (adm_tab (at_ 5) (read_second d) std_second)) (rangeN 0 60)
+         | _ => true end then [] else [5])
+  ++ (if match f_frac d with
+         | F_f => match adm_frac_len (at_ 6) with [] => false | _ => true end
+         | _ => true end then [] else [6])
+  ++ (if match f_tz d with
+         | Tz_z | Tz_zc | Tz_zp => Nat.leb (2 * length (std_tz (f_tz d))) (3 * length (adm_tz_tab (at_ 7) d))
+         | Tz_Z => Nat.leb 192 (length (adm_tz_tab (at_ 7) d))
+         | _ => true end then [] else [7]).
+
+(* ------------------------------------------------------------------ 3. pattern competition
+   [refuted r' fs]: row r' can match NO line whose timestamp items are texts of the family fs (timestamp at
+   the start of the slice): r' is anchored at `^` (so it can only match at offset 0) and the symbolic engine
+   refutes it on every combination of shapes of the leading items (as many items as keep the number of
+   combinations under the budget), whatever follows. *)
+Fixpoint starts_bol (r : re) : bool :=
+  match r with
+  | RBol => true
+  | RSeq a _ => starts_bol a
+  | RGroup _ a => starts_bol a
+  | RAlt a b => if starts_bol a then starts_bol b else false
+  | _ => false
+  end.
+Fixpoint heads_n (n : nat) (fs : fam) : list shape :=
+  match n, fs with
+  | S n', fj :: more => flat_map (fun st => map (fun h => st ++ h) (heads_n n' more)) fj
+  | _, _ => [[]]
+  end.
+Fixpoint heads_count (n : nat) (fs : fam) : nat :=
+  match n, fs with
+  | S n', fj :: more => length fj * heads_count n' more
+  | _, _ => 1
+  end.
+Definition HEAD_BUDGET : nat := 128.
+(* the variants of a shape with its first proper set replaced by each of its bytes *)
+Fixpoint split_first (sh : shape) : option (list shape) :=
+  match sh with
+  | [] => None
+  | SyS (a :: b :: s) :: rest => Some (map (fun x => SyB x :: rest) (a :: b :: s))
+  | y :: rest => match split_first rest with
+                 | Some vs => Some (map (cons y) vs)
+                 | None => None
+                 end
+  end.
+(* refute r' at offset 0 on every text of the shape followed by anything; when the symbolic run is not
+   definite, split the first set of the shape into its bytes (fuel = number of splits along a branch) *)
+Fixpoint refute_sh (fuel : nat) (r' : re) (sh : shape) : bool :=
+  match sm sst (S (length sh)) r' (mkS 0 OAbs sh TAny []) s_accept with
+  | NoMatch => true
+  | Unknown => match fuel with
+               | O => false
+               | S f => match split_first sh with
+                        | Some vs => forallb (refute_sh f r') vs
+                        | None => false
+                        end
+               end
+  | _ => false
+  end.
+Definition REFUTE_SPLITS : nat := 4.
+(* incremental: the combinations of the first n items, for the first n (within the budget) that refutes *)
+Definition refuted (r' : re) (fs : fam) : bool :=
+  if starts_bol r'
+  then existsb (fun n => if Nat.leb (heads_count n fs) HEAD_BUDGET
+                         then forallb (refute_sh REFUTE_SPLITS r') (heads_n n fs) else false)
+               [1; 2; 3; 4; 5; 6; 7; 8]%nat
+  else false.
+(* the earlier rows that are NOT refuted for the lines of [row]: its possible competitors *)
+Definition competitors (table : list rx_row) (row : rx_row) : list N :=
+  let fs := row_fam row in
+  map rx_index (filter (fun r' => if rx_index r' <? rx_index row then negb (refuted (rx_re r') fs) else false) table).
